@@ -12,10 +12,12 @@ def run(rep, tier, seed):
         rep.violation({'kind': 'proof-broken', 'log': pr['log'][-3000:], 'forbidden': pr['forbidden']}, suffix='no-failing-input-found')
     nh, nops, mp = (8, 30, 110) if tier == 'quick' else (96, 60, 100000)
     k3check.run_crash(rep, 'C02', tier, seed, ['min', 'dirahead', 'torn'], nh, nops, mp, OPTS, known_sig=known_sig)
+    import k8check
+    k8check.run_sync_groups(rep, tier, seed)       # pthread build: sync writers merged into a group commit must be fsynced with it
     rep.cov['rule'] = ('write histories with mixed sync/non-sync batches, flushes, compactions, reopen; at every (sampled in quick) syscall '
                        'boundary three images allowed by the crash model are materialised (minimal: every file cut to its last-fsync length and '
                        'directory operations only up to the last fsync; directory-ops-ahead-of-data; torn tail) and the real ldb_open + scan must '
-                       'contain every sync-acknowledged batch and every batch whose log was deleted; distinct_nontrivial = distinct images recovered')
+                       'contain every sync-acknowledged batch and every batch whose log was deleted; plus multi-threaded runs of the pthread build with mixed sync flags under schedule perturbation: every group commit that contains a sync=1 writer must be followed by an fsync of the log before the next group is built; distinct_nontrivial = distinct images recovered')
     rep.assumptions.append('crash model is the one stated in the property (prefix of written bytes >= last fsync, directory operations in issue order >= last fsync)')
 
 def replay(rep, path):
